@@ -299,7 +299,7 @@ def run(rep, for_c07=False):
             tlc.must_ok(res, f"Psm dump {role}")
             rep.tlc(f"Psm dump {role}", res)
             # quick tier of C07: a bounded number of tour steps (coverage is reported); thorough: the whole graph
-            jobs.append((dot, role, 2500 if (for_c07 and quick) else None))
+            jobs.append((dot, role, 2500 if (for_c07 and quick) else 60000 if for_c07 else None))      # C07's graph (4 identifier values) is toured up to a cap
         if not for_c07:
             jobs.append(pair_stage(rep, wd, quick))
         run_tours(rep, jobs)
